@@ -63,9 +63,9 @@ def run(ctx: Ctx) -> None:
                 ctx.extra.setdefault("plain_export_failures", []).append({pr["prog"]: c["why"]})
                 continue
             ncases += 1
-            ctx.count(("layout", pr["prog"], json.dumps(c["shape"]), json.dumps(c["in"]), json.dumps(c["out"])), nontrivial=True)
+            ctx.count(("layout", pr["prog"], json.dumps(c["shape"]), bool(c.get("symbolic")), json.dumps(c["in"]), json.dumps(c["out"])), nontrivial=True)
             if not c["ok"]:
-                ctx.violation({"engine": "layout_flags", "prog": pr["prog"], "in": c["in"], "out": c["out"]}, f"{pr['prog']} with inputs_as_nchw={c['in']} outputs_as_nchw={c['out']} shape {c['shape']}: {c['why']}", c)
+                ctx.violation({"engine": "layout_flags", "prog": pr["prog"], "in": c["in"], "out": c["out"], **({"symbolic": True} if c.get("symbolic") else {})}, f"{pr['prog']} with inputs_as_nchw={c['in']} outputs_as_nchw={c['out']} shape {c['shape']}: {c['why']}", c)
         for rj in pr["rejections"]:
             ncases += 1
             ctx.count(("reject", pr["prog"], rj["label"]))
